@@ -44,6 +44,12 @@ PURE_FUNCS = {
     're.compile': re.compile, 're.split': re.split, 're.sub': re.sub, 're.escape': re.escape,
     'collections.defaultdict': collections.defaultdict, 'defaultdict': collections.defaultdict, 'collections.Counter': collections.Counter, 'Counter': collections.Counter,
 }
+def _searchsorted(a, v, side='left', sorter=None):
+    import bisect
+    a = list(a)
+    return bisect.bisect_left(a, v) if side == 'left' else bisect.bisect_right(a, v)
+
+
 def _windowed(seq, n, fillvalue=None, step=1):
     seq = list(seq)
     if len(seq) < n:
@@ -51,7 +57,7 @@ def _windowed(seq, n, fillvalue=None, step=1):
     return [tuple(seq[i:i + n]) for i in range(0, len(seq) - n + 1, step)]
 
 
-PURE_FUNCS.update({'windowed': _windowed, 'more_itertools.windowed': _windowed})
+PURE_FUNCS.update({'windowed': _windowed, 'more_itertools.windowed': _windowed, 'np.searchsorted': _searchsorted, 'numpy.searchsorted': _searchsorted})
 PURE_FUNCS = {k: v for k, v in PURE_FUNCS.items() if v is not None}
 
 
@@ -215,6 +221,8 @@ class Evaluator:
             return self._comp(e, env)
         if isinstance(e, ast.Call):
             return self._call(e, env)
+        if isinstance(e, ast.Lambda):
+            return e
         if isinstance(e, ast.Starred):
             raise Unfoldable('starred')
         raise Unfoldable(type(e).__name__)
@@ -278,6 +286,35 @@ class Evaluator:
             lf = env[e.func.id]
             self.budget -= 5
             return run_function(lf.fdef, args, kwargs, env=lf.scope, budget=max(0, self.budget))
+        if d in ('itertools.takewhile', 'takewhile', 'itertools.dropwhile', 'dropwhile', 'filter', 'map') and len(e.args) == 2 and (
+                isinstance(e.args[0], ast.Lambda) or (isinstance(e.args[0], ast.Name) and isinstance(env.get(e.args[0].id), (ast.Lambda, LocalFn)))):
+            fn_ = e.args[0] if isinstance(e.args[0], ast.Lambda) else env[e.args[0].id]
+
+            def apply(x):
+                if isinstance(fn_, ast.Lambda):
+                    env2 = dict(env)
+                    env2[fn_.args.args[0].arg] = x
+                    return self.ev(fn_.body, env2)
+                return run_function(fn_.fdef, [x], env=fn_.scope, budget=max(0, self.budget))
+            seq = list(args[1])
+            kind = d.split('.')[-1]
+            if kind == 'map':
+                return [apply(x) for x in seq]
+            if kind == 'filter':
+                return [x for x in seq if apply(x)]
+            out, taking = [], True
+            for x in seq:
+                self.tick()
+                if kind == 'takewhile':
+                    if not apply(x):
+                        break
+                    out.append(x)
+                else:
+                    if taking and apply(x):
+                        continue
+                    taking = False
+                    out.append(x)
+            return out
         if isinstance(e.func, ast.Lambda) or (isinstance(e.func, ast.Name) and isinstance(env.get(e.func.id), ast.Lambda)):
             lam = e.func if isinstance(e.func, ast.Lambda) else env[e.func.id]
             env2 = dict(env)
